@@ -1740,10 +1740,13 @@ package connect
 //@   requires hdrOf(hc.responseWriter) != hc.responseTrailer && (err != nil && coded(err) ==> asErr(err).meta != hdrOf(hc.responseWriter))
 //@   assigns everything
 //@   ensures err != nil && old(rwstatus(hc.responseWriter)) == 0 ==> 400 <= rwstatus(hc.responseWriter) && rwstatus(hc.responseWriter) <= 599   // label: a-failed-unary-call-never-has-a-2xx-status
-//@   assert@call(http.ResponseWriter.WriteHeader#1): (coded(err) ==> arg1 == connectHTTPStatus(codeOf(err))) && (!coded(err) ==> arg1 == 500)   // label: status-derived-from-the-error's-code
+//@   assert@call(http.ResponseWriter.WriteHeader#1): callres("json.Marshal", 1, 1) == nil ==> (coded(err) ==> arg1 == connectHTTPStatus(codeOf(err))) && (!coded(err) ==> arg1 == 500)   // label: status-derived-from-the-error's-code
+//@   assert@call(http.ResponseWriter.WriteHeader#1): callres("json.Marshal", 1, 1) != nil ==> arg1 == 500   // label: an-error-that-cannot-be-rendered-is-answered-as-internal
+//@   assert@call(json.Marshal#2): callres("json.Marshal", 1, 1) != nil && boxed(arg0) != nil && fresh(boxed(arg0)) && cast(boxed(arg0), "*Error").code == 13   // label: the-fallback-is-a-fresh-internal-error
+//@   ensures err != nil && !called("http.ResponseWriter.Write", 1) ==> called("json.Marshal", 2) && callres("json.Marshal", 2, 1) != nil   // label: a-failed-call-is-answered-with-an-error-body-unless-not-even-the-fallback-can-be-rendered   // tags: C02, C05
 //@   assert@call(json.Marshal#1): coded(err) ==> boxed(arg0) == asErr(err)   // label: body-is-the-wire-form-of-the-error-itself
 //@   assert@call(json.Marshal#1): !coded(err) ==> boxed(arg0) != nil && fresh(boxed(arg0)) && cast(boxed(arg0), "*Error").code == 2 && cast(boxed(arg0), "*Error").err == err   // label: plain-error-is-sent-as-unknown-with-its-text
-//@   assert@call(http.ResponseWriter.Write#1): seq(arg1) == seq(callres("json.Marshal", 1, 0))   // label: body-is-the-marshalled-error
+//@   assert@call(http.ResponseWriter.Write#1): (callres("json.Marshal", 1, 1) == nil ==> seq(arg1) == seq(callres("json.Marshal", 1, 0))) && (callres("json.Marshal", 1, 1) != nil ==> seq(arg1) == seq(callres("json.Marshal", 2, 0)))   // label: body-is-the-marshalled-error
 //@   assert@call(http.ResponseWriter.Write#1): called("http.ResponseWriter.WriteHeader", 1)   // label: status-precedes-the-body
 //@   assert@call(http.ResponseWriter.Write#1): !hdom(hdrOf(hc.responseWriter), "Content-Encoding")   // label: the-plain-json-error-body-is-not-labelled-with-an-encoding-whatever-the-error's-metadata-holds   // tags: C08, C05
 
@@ -1758,7 +1761,10 @@ package connect
 //@   assert@call(json.Marshal#1): let e := cast(arg0, "*connectEndStreamMessage") in e.Trailer == trailer && (err == nil ==> e.Error == nil) && (err != nil && coded(err) ==> e.Error == asErr(err)) && (err != nil && !coded(err) ==> e.Error != nil && fresh(e.Error) && e.Error.code == 2 && e.Error.err == err)   // label: end-of-stream-message-carries-the-error-itself-and-the-trailers
 //@   ensures err != nil && coded(err) ==> (forall k seq :: {mapval(trailer, k)} mapdom(asErr(err).meta, k) ==> mapdom(trailer, k) && mapval(trailer, k) == old(rawvals(trailer, k)) ++ mapval(asErr(err).meta, k))   // label: error-metadata-appended-to-the-trailers
 //@   ensures !(err != nil && coded(err)) ==> (forall k seq :: {mapval(trailer, k)} mapdom(trailer, k) == old(mapdom(trailer, k)) && mapval(trailer, k) == old(mapval(trailer, k)))   // label: trailers-untouched-otherwise
-//@   ensures res == nil ==> (let D := seq(callres("json.Marshal", 1, 0)) in appendsFrame(out(m.envelopeWriter.writer), old(out(m.envelopeWriter.writer)), 2, D) || (m.envelopeWriter.compressionPool != nil && appendsFrame(out(m.envelopeWriter.writer), old(out(m.envelopeWriter.writer)), 3, compBy(m.envelopeWriter.compressionPool.compressors, D))))   // label: exactly-one-envelope-flagged-end-of-stream   // tags: C05, C04
+//@   ensures res == nil ==> (let D := (if callres("json.Marshal", 1, 1) == nil then seq(callres("json.Marshal", 1, 0)) else seq(callres("json.Marshal", 2, 0))) in appendsFrame(out(m.envelopeWriter.writer), old(out(m.envelopeWriter.writer)), 2, D) || (m.envelopeWriter.compressionPool != nil && appendsFrame(out(m.envelopeWriter.writer), old(out(m.envelopeWriter.writer)), 3, compBy(m.envelopeWriter.compressionPool.compressors, D))))   // label: exactly-one-envelope-flagged-end-of-stream   // tags: C05, C04
+//@   assert@call(json.Marshal#2): callres("json.Marshal", 1, 1) != nil && err != nil && (let e := cast(arg0, "*connectEndStreamMessage") in e.Trailer == trailer && e.Error != nil && fresh(e.Error) && e.Error.code == 13)   // label: the-fallback-is-a-fresh-internal-error-with-the-same-trailers
+//@   ensures err != nil && callres("json.Marshal", 1, 1) != nil ==> called("json.Marshal", 2)   // label: an-error-that-cannot-be-rendered-is-replaced-by-an-internal-one-not-dropped   // tags: C02, C05
+//@   ensures err != nil && res != nil && !called("(*envelopeWriter).Write", 1) ==> called("json.Marshal", 2) && callres("json.Marshal", 2, 1) != nil   // label: a-failed-call-gets-its-end-of-stream-message-unless-not-even-the-fallback-can-be-rendered   // tags: C02, C05
 //@   ensures res != nil ==> coded(res)
 
 //@ constfield connectStreamingHandlerConn.request, connectStreamingHandlerConn.responseWriter, connectStreamingHandlerConn.responseTrailer
